@@ -68,6 +68,90 @@ func runSessionWith(h mocrelay.Handler, msgs []mocrelay.ClientMsg, timeout time.
 	}
 }
 
+// runSessionSlow is runSession with a client that pauses between two reads.
+func runSessionSlow(h mocrelay.Handler, msgs []mocrelay.ClientMsg, timeout, pause time.Duration) (outs []mocrelay.ServerMsg, complete bool) {
+	ctx, cancel := context.WithCancel(context.Background())
+	defer cancel()
+	send := make(chan mocrelay.ServerMsg)
+	recv := make(chan mocrelay.ClientMsg)
+	done := make(chan struct{})
+	go func() { h.ServeNostr(ctx, send, recv); close(done) }()
+	all := append(append([]mocrelay.ClientMsg{}, msgs...), &mocrelay.ClientCountMsg{SubscriptionID: sentinelSub, ReqFilters: []*mocrelay.ReqFilter{{}}})
+	go func() {
+		for _, m := range all {
+			select {
+			case recv <- m:
+			case <-ctx.Done():
+				return
+			}
+		}
+	}()
+	deadline := time.After(timeout)
+	for {
+		select {
+		case m := <-send:
+			outs = append(outs, m)
+			if c, ok := m.(*mocrelay.ServerCountMsg); ok && c.SubscriptionID == sentinelSub {
+				cancel()
+				select {
+				case <-done:
+				case <-time.After(3 * time.Second):
+				}
+				return outs, true
+			}
+			time.Sleep(pause)
+		case <-deadline:
+			return outs, false
+		}
+	}
+}
+
+func c16SQLiteStall(run *core.Run, traces *[]tv.Trace, distinct *core.DistinctSet) {
+	conc := abs.NewConc()
+	st, err := openMemSQL()
+	if err != nil {
+		run.Problem("sqlite: %v", err)
+		return
+	}
+	ctx, cancel := context.WithCancel(context.Background())
+	defer func() { cancel(); time.Sleep(5 * time.Millisecond); st.Close() }()
+	h, err := mocsqlite.NewSQLiteHandler(ctx, st.db, &mocsqlite.SQLiteHandlerOption{EventBulkInsertNum: 1, EventBulkInsertDur: time.Hour, MaxLimit: mocsqlite.NoLimit})
+	if err != nil {
+		run.Problem("sqlite handler: %v", err)
+		return
+	}
+	// hold the database's only connection for 600 ms
+	conn, err := st.db.Conn(ctx)
+	if err != nil {
+		run.Problem("conn: %v", err)
+		return
+	}
+	go func() { time.Sleep(600 * time.Millisecond); conn.Close() }()
+	var msgs []mocrelay.ClientMsg
+	var lines []any
+	for i := 0; i < 8; i++ {
+		e := abs.Event{ID: fmt.Sprintf("stall%d", i), Author: "a", Kind: 1, TS: int64(i + 1)}
+		msgs = append(msgs, &mocrelay.ClientEventMsg{Event: conc.Event(e, "c")})
+		lines = append(lines, map[string]any{"op": "EVENT", "e": e, "shape": "EVENT while the database is busy"})
+	}
+	outs, complete := runSession(h, msgs, 15*time.Second)
+	if !complete {
+		run.Violate("session:sqlite:database busy: no reply to the final sentinel within 15s", fmt.Sprintf("%d outputs", len(outs)), nil)
+		return
+	}
+	var aouts []any
+	for _, m := range outs {
+		aouts = append(aouts, absOut(conc, m))
+	}
+	tr := tv.Trace{Name: "sqlite-database-busy"}
+	tr.Lines = append(tr.Lines, map[string]any{"op": "reset", "mode": "sqlite", "cap": 1, "outs": aouts})
+	tr.Lines = append(tr.Lines, lines...)
+	tr.Lines = append(tr.Lines, map[string]any{"op": "COUNT", "sub": sentinelSub, "shape": "sentinel COUNT"}, map[string]any{"op": "end", "shape": "end: output left over"})
+	*traces = append(*traces, tr)
+	run.Add("messages_sent", int64(len(msgs)))
+	distinct.Add(tr.Name)
+}
+
 func absOut(conc *abs.Conc, m mocrelay.ServerMsg) map[string]any {
 	switch m := m.(type) {
 	case *mocrelay.ServerOKMsg:
@@ -176,6 +260,46 @@ func C16(run *core.Run) {
 		distinct.Add(fmt.Sprint(mode, len(msgs), len(outs), t))
 		run.Add("messages_sent", int64(len(msgs)))
 	}
+	// a REQ with a long answer pipelined with further requests, read by a slow client: order must hold
+	for t := 0; t < 3; t++ {
+		conc := abs.NewConc()
+		h := mocrelay.NewCacheHandler(64)
+		var msgs []mocrelay.ClientMsg
+		var lines []any
+		for i := 0; i < 40; i++ {
+			e := abs.Event{ID: fmt.Sprintf("big%d_%d", t, i), Author: []string{"a", "b"}[i%2], Kind: 1, TS: int64(1 + i%7)}
+			msgs = append(msgs, &mocrelay.ClientEventMsg{Event: conc.Event(e, "c")})
+			lines = append(lines, map[string]any{"op": "EVENT", "e": e, "shape": "EVENT regular"})
+		}
+		for j := 0; j < 3; j++ {
+			fs := []abs.Filter{{}}
+			msgs = append(msgs, &mocrelay.ClientReqMsg{SubscriptionID: fmt.Sprintf("all%d", j), ReqFilters: conc.Filters(fs)})
+			lines = append(lines, map[string]any{"op": "REQ", "sub": fmt.Sprintf("all%d", j), "fs": abs.NormFilters(fs), "shape": "REQ with a long answer, pipelined"})
+			e := abs.Event{ID: fmt.Sprintf("late%d_%d", t, j), Author: "a", Kind: 1, TS: 9}
+			msgs = append(msgs, &mocrelay.ClientEventMsg{Event: conc.Event(e, "c")})
+			lines = append(lines, map[string]any{"op": "EVENT", "e": e, "shape": "EVENT right after a long REQ"})
+			msgs = append(msgs, &mocrelay.ClientCountMsg{SubscriptionID: "cnt", ReqFilters: conc.Filters(fs)})
+			lines = append(lines, map[string]any{"op": "COUNT", "sub": "cnt", "shape": "COUNT right after a long REQ"})
+		}
+		outs, complete := runSessionSlow(h, msgs, 20*time.Second, 150*time.Microsecond)
+		if !complete {
+			run.Violate("session:cache:long answer: no reply to the final sentinel", fmt.Sprintf("%d outputs", len(outs)), nil)
+			continue
+		}
+		var aouts []any
+		for _, m := range outs {
+			aouts = append(aouts, absOut(conc, m))
+		}
+		tr := tv.Trace{Name: fmt.Sprintf("cache-long-answer-%d", t)}
+		tr.Lines = append(tr.Lines, map[string]any{"op": "reset", "mode": "cache", "cap": 64, "outs": aouts})
+		tr.Lines = append(tr.Lines, lines...)
+		tr.Lines = append(tr.Lines, map[string]any{"op": "COUNT", "sub": sentinelSub, "shape": "sentinel COUNT"}, map[string]any{"op": "end", "shape": "end: output left over"})
+		traces = append(traces, tr)
+		run.Add("messages_sent", int64(len(msgs)))
+		distinct.Add(tr.Name)
+	}
+	// SQLite: the database is busy for a while (its only connection is held); every EVENT is still accepted
+	c16SQLiteStall(run, &traces, distinct)
 	out, err := tv.Validate(handlerTraceSpec, nil, traces, 6)
 	if out != nil {
 		run.Add("traces_validated_against_impl", int64(out.Accepted+len(out.Rejects)))
@@ -352,4 +476,37 @@ func c16DumpRestore(run *core.Run, distinct *core.DistinctSet) {
 		traces = append(traces, tr)
 	}
 	validateFindTraces(run, nil, traces, "restore")
+	// a large cache with many created_at ties: the dump must list every retained event
+	for t := 0; t < 2; t++ {
+		conc := abs.NewConc()
+		cap := 700
+		h := mocrelay.NewCacheHandler(cap)
+		a := newHandlerAdapter(h)
+		for i := 0; i < 620; i++ {
+			e := abs.Event{ID: fmt.Sprintf("L%d_%d", t, i), Author: []string{"a", "b", "c"}[i%3], Kind: 1, TS: int64(1 + r.Intn(9))}
+			a.Add(conc.Event(e, "c"))
+		}
+		orig, _ := a.Find(matchAll)
+		a.Close()
+		var buf bytes.Buffer
+		if err := h.Dump(&buf); err != nil {
+			run.Violate("dump:error", err.Error(), nil)
+			continue
+		}
+		h2 := mocrelay.NewCacheHandler(cap)
+		if err := h2.Restore(bytes.NewReader(buf.Bytes())); err != nil {
+			run.Violate("restore:error", err.Error(), nil)
+			continue
+		}
+		b := newHandlerAdapter(h2)
+		rest, _ := b.Find(matchAll)
+		lim := int64(300)
+		restLim, _ := b.Find([]*mocrelay.ReqFilter{{Limit: &lim}})
+		b.Close()
+		run.Add("restore_probes", 2)
+		distinct.Add(fmt.Sprint("dump-large", t))
+		if abs.KeyOf(conc.Labels(orig)) != abs.KeyOf(conc.Labels(rest)) || len(restLim) != 300 {
+			run.Violate("restore:listing differs (large cache with created_at ties)", fmt.Sprintf("dumped %d events, the restored cache lists %d (limit 300 -> %d)", len(orig), len(rest), len(restLim)), nil)
+		}
+	}
 }
